@@ -87,6 +87,8 @@ def check(chk, repo):
         rep.ev("SEMI-append-rows", a, okn, detail)
     # 3. seeding + competition
     check_seeding(rep, "", comp, repo)
+    from ..common import check_model_premises
+    check_model_premises(rep, repo)
 
     def extra(e, u):
         q = u.q
